@@ -12,7 +12,8 @@
    is refused above [cap] bytes ([Throw 1] = std::bad_alloc) or when the count is negative ([Throw 2] =
    std::length_error, the count being converted to size_t); loops that are not structurally bounded by the
    input run on fuel ([Hang]).
-   The record [cfg] selects the code as it is (all flags false) or with the candidate fixes of /verif/fixes.
+   The record [cfg] selects the code before the fixes C09_1..4 (cfg_asis), as it is now (cfg_now) or with the
+   proposed fixes/C09_5 (cfg_fixed).
    No proofs here. *)
 From Coq Require Import List ZArith QArith Bool.
 Import ListNotations.
@@ -20,13 +21,19 @@ Local Open Scope Z_scope.
 
 (* ------------------------------------------------------------------ configuration *)
 Record cfg := mkCfg {
-  fix_store : bool;   (* fixes/C09_1: "ecr >= nvalues" tested before the store in _recordReadVec / _recordReadVecInPlace *)
-  fix_counts : bool;  (* fixes/C09_2: counts read from the file are refused when negative or larger than the remaining input *)
-  fix_loc : bool;     (* fixes/C09_3: Db::_deserialize never leaves filler entries in a locator list *)
-  fix_grid : bool     (* fixes/C09_4: DbGrid::_deserialize propagates the failure of the Db part and checks nech = prod(nx) *)
+  fix_store : bool;   (* fix C09_1 (applied): "ecr >= nvalues" tested before the store in _recordReadVec / _recordReadVecInPlace *)
+  fix_counts : bool;  (* fix C09_2 (applied): counts read from the file are refused when negative or larger than the remaining input *)
+  fix_locfail : bool; (* fix C09_3, second hunk (applied): a locator word refused by locatorIdentify is a failure *)
+  fix_grid : bool;    (* fix C09_4 (applied): DbGrid::_deserialize propagates the failure of the Db part; sample count = grid size *)
+  fix_rank : bool     (* fixes/C09_5 (proposed): locator ranks below the number of columns, and every role slot declared by a column *)
 }.
-Definition cfg_asis : cfg := mkCfg false false false false.
-Definition cfg_fixed : cfg := mkCfg true true true true.
+(* the code before the fixes (regression witnesses only), the code as it is now, the code with the proposed C09_5 *)
+Definition cfg_asis : cfg := mkCfg false false false false false.
+Definition cfg_now : cfg := mkCfg true true true true false.
+Definition cfg_fixed : cfg := mkCfg true true true true true.
+(* what the theorems about the current code need from a configuration *)
+Definition cfg_ge_now (c : cfg) : Prop :=
+  fix_store c = true /\ fix_counts c = true /\ fix_locfail c = true /\ fix_grid c = true.
 
 Record env := mkEnv { e_cfg : cfg; e_cap : Z; e_fuel : nat }.
 
